@@ -16,6 +16,7 @@ always on the machine), else on the machine in lock-step with the fake kernel.""
 import json
 import os
 import random
+import struct
 
 from harness import tlc as T
 from harness import fakekernel, mapsrun as M, kernel
@@ -35,7 +36,54 @@ ORDERED = [dict(n=1, c=c, o=o) for o in ("<", ">", "!") for c in "bBhHiIqQ"]
 NATIVE_MORE = [dict(n=1, c=c) for c in "bHiQ"]
 
 
+# composite formats: several elements of different letters and / or pad bytes.  With a byte-order prefix struct
+# packs them without padding, so their size need not be a multiple of the size of any element ("<HI" 6 bytes,
+# ">BH" 3, "!BBBH" 5, "<IQ" 12); natively struct pads between the elements but not at the end ("BH" 4 bytes,
+# "Hx" = H + one pad byte = 3, "HB" 3).  n = number of value elements, els = letters ("pad" for x inside a format)
+def composite(o, *els):
+    return dict(n=sum(1 for e in els if e != "pad"), c="*", o=o, els=list(els))
+
+
+COMPOSITE = [composite("<", "H", "I"), composite(">", "B", "H"), composite("!", "B", "B", "B", "H"),
+             composite("<", "I", "Q"), composite("", "H", "pad"), composite("", "B", "H"), composite("", "H", "B"),
+             composite(">", "H", "pad"), composite("", "B", "I"), composite("<", "B", "q"), composite("", "I", "H")]
+
+
+def els(f):
+    return f["els"] if "els" in f else [f["c"]] * f["n"]
+
+
+def vletters(f):
+    return [e for e in els(f) if e != "pad"]
+
+
+def multi(f):
+    """accessed element-wise by a program (through get_address), returned as a tuple by Python if n > 1"""
+    return f["n"] > 1 or "els" in f
+
+
+def struct_layout(f):
+    """(offsets of the value elements, size) by the rules of the struct module: native formats align every
+    element to its size, formats with a byte order are packed"""
+    off, offs = 0, []
+    for e in els(f):
+        sz = 1 if e == "pad" else SIZES[e]
+        if not f.get("o"):
+            off = (off + sz - 1) // sz * sz
+        if e != "pad":
+            offs.append(off)
+        off += sz
+    return offs, off
+
+
+def prog_ok(f):
+    """can the generated program touch the elements with the native memory accessors?"""
+    return "els" not in f or not f.get("o")
+
+
 def fstr(f):
+    if "els" in f:
+        return f.get("o", "") + "".join("x" if e == "pad" else e for e in f["els"])
     return f.get("o", "") + (f["c"] if f["n"] == 1 else f"{f['n']}{f['c']}")
 
 
@@ -71,7 +119,9 @@ def random_decl(rng):
     """a larger set than the enumeration reaches: up to 6 variables of any format"""
     n = rng.randint(4, 6)
     d = dict(base=[], derived=[], redecl=[], sub=[], nsub=0, mapin="derived")
-    pool = FMTS if rng.random() < 0.4 else FMTS + NATIVE_MORE + ORDERED + ORDERED
+    r = rng.random()
+    pool = FMTS if r < 0.3 else (FMTS + NATIVE_MORE + ORDERED + ORDERED if r < 0.65
+                                 else FMTS + COMPOSITE + COMPOSITE + ORDERED)
     for _ in range(n):
         d[rng.choice(["base", "derived", "derived", "sub"])].append(rng.choice(pool))
     if d["base"] and rng.random() < 0.3:
@@ -172,34 +222,41 @@ def gen_program(rng, vs, percpu):
     """statements over the variables: dict(op, dst=(var, elem), src, k)  (var = index into vs.all)"""
     stmts = []
     ids = list(range(len(vs.all)))
+    ids = [j for j in ids if prog_ok(vs.all[j][2])]
+    if not ids:
+        return stmts
+
+    def letter(j, i):
+        return vletters(vs.all[j][2])[i]
     for _ in range(rng.randint(2, 6)):
         d = rng.choice(ids)
         fd = vs.all[d][2]
         di = rng.randrange(fd["n"])
+        dc = letter(d, di)
         kind = rng.choice(["const", "const", "copy", "copy", "add", "self", "iadd", "iadd", "isub"])
         if kind in ("iadd", "isub"):             # in-place update: `v += k` / `v -= k` (atomic add where it applies)
-            k = rng.choice([1, 3, 100, 255, 256, 4660, 65536]) * (M.SCALE if fd["c"] == "x" else 1)
-            if fd["c"] in "bB" and k > 100:
+            k = rng.choice([1, 3, 100, 255, 256, 4660, 65536]) * (M.SCALE if dc == "x" else 1)
+            if dc in "bB" and k > 100:
                 k = rng.choice([1, 3, 100])
             stmts.append(dict(op=kind, dst=[d, di], src=[d, di], k=k))
             continue
         if kind == "const":
-            if fd["c"] == "x":
+            if dc == "x":
                 k = rng.choice([rng.randint(-50, 50) * M.SCALE, rng.randint(-10 ** 7, 10 ** 7)])
             else:
-                k = rand_int(rng, fd["c"])
+                k = rand_int(rng, dc)
             stmts.append(dict(op="const", dst=[d, di], src=[0, 0], k=k))
             continue
         if kind == "self":
             stmts.append(dict(op="copy", dst=[d, di], src=[d, di], k=0))
             continue
-        same_kind = [j for j in ids if (vs.all[j][2]["c"] == "x") == (fd["c"] == "x")]
+        cands = [(j, i) for j in ids for i in range(vs.all[j][2]["n"]) if (letter(j, i) == "x") == (dc == "x")]
         if kind == "add":
-            same_kind = [j for j in same_kind if vs.all[j][2]["c"] == fd["c"] and fd["c"] != "x"]
-        if not same_kind:
+            cands = [(j, i) for j, i in cands if letter(j, i) == dc and dc != "x"
+                     and vs.all[j][2].get("o", "") == fd.get("o", "")]
+        if not cands:
             continue
-        s = rng.choice(same_kind)
-        si = rng.randrange(vs.all[s][2]["n"])
+        s, si = rng.choice(cands)
         if kind == "copy":
             stmts.append(dict(op="copy", dst=[d, di], src=[s, si], k=0))
         else:
@@ -219,7 +276,7 @@ def emitter(vs, stmts):
             """an expression / assignable target for element i of a multi-element variable"""
             inst, name, f = vs.all[var]
             reg, _ = stack.enter_context(getattr(objs[inst], name).get_address(None, False, False))
-            return getattr(self, "m" + f["c"]), self.r[reg] + i * SIZES[f["c"]]
+            return getattr(self, "m" + vletters(f)[i]), self.r[reg] + struct_layout(f)[0][i]
 
         for st in stmts:
             (d, di), (s, si) = st["dst"], st["src"]
@@ -227,8 +284,21 @@ def emitter(vs, stmts):
             with ExitStack() as stack:
                 if st["op"] in ("iadd", "isub"):     # exactly what Python does for `target += k`
                     k = st["k"] // M.SCALE if df["c"] == "x" else st["k"]
-                    if df["n"] > 1:
+                    if multi(df):
                         mm, addr = elem(stack, d, di)
+                        # the in-place update of 4 / 8 bytes is an atomic add, which the kernel only takes at a
+                        # naturally aligned address.  The elements of a multi-element variable are reached through
+                        # address arithmetic of the PROGRAM's own making (the package has no element access), and
+                        # C08 promises own bytes and unchanged values, not alignment of elements: an element that
+                        # does not sit on a multiple of its size is updated with a plain load / add / store.
+                        # (The widened check first reported `IH` after `>Hx` / `<HI`: I at 21 - counted in the
+                        # evidence as an observation, see DESIGN 10.6; single-element variables ARE aligned: F47.)
+                        pos = objs[dinst].__dict__.get(dname)
+                        esize = struct.calcsize(vletters(df)[di].replace("x", "q"))
+                        if isinstance(pos, int) and (pos + struct_layout(df)[0][di]) % esize:
+                            program.unaligned_elements += 1
+                            mm[addr] = mm[addr] + (k if st["op"] == "iadd" else -k)
+                            continue
                         tmp = mm[addr]
                     else:
                         tmp = getattr(objs[dinst], dname)
@@ -236,7 +306,7 @@ def emitter(vs, stmts):
                         tmp += k
                     else:
                         tmp -= k
-                    if df["n"] > 1:
+                    if multi(df):
                         mm[addr] = tmp
                     else:
                         setattr(objs[dinst], dname, tmp)
@@ -246,19 +316,20 @@ def emitter(vs, stmts):
                         (st["k"] // M.SCALE if df["c"] == "x" else st["k"])
                 else:
                     sinst, sname, sf = vs.all[s]
-                    if sf["n"] > 1:
+                    if multi(sf):
                         mm, addr = elem(stack, s, si)
                         val = mm[addr]
                     else:
                         val = getattr(objs[sinst], sname)
                     if st["op"] == "add":
                         val = val + st["k"]
-                if df["n"] > 1:
+                if multi(df):
                     mm, addr = elem(stack, d, di)
                     mm[addr] = val
                 else:
                     setattr(objs[dinst], dname, val)
         self.exit(XDPExitCode.PASS)
+    program.unaligned_elements = 0
     return program
 
 
@@ -281,7 +352,7 @@ def py_value(rng, f):
         n = rng.choice([rng.randint(-10 ** 7, 10 ** 7), rng.randint(-300, 300) * 1000, 29000, 57000,
                         rng.randint(-10 ** 11, 10 ** 11)])
         return n / M.SCALE, [M.word(n)]
-    vals = [rand_int(rng, f["c"]) for _ in range(f["n"])]
+    vals = [rand_int(rng, c) for c in vletters(f)]
     return (tuple(vals) if f["n"] > 1 else vals[0]), [M.word(v) for v in vals]
 
 
@@ -386,8 +457,11 @@ def run(ctx):
     allp, deep = ["base", "derived", "redecl", "sub"], ["derived", "sub"]
     small = [FMTS[0], FMTS[4], FMTS[5]]
     ordered = [f for f in ORDERED if f["o"] != "!" or f["c"] in "Iq"] + [FMTS[2], FMTS[3]]
-    decls = enumerate_decls(ctx, wd, [(FMTS, 2, allp), (small, 4, deep), (ordered, 2, ["derived"])] if ctx.quick
-                            else [(FMTS, 3, allp), (small, 6, deep), (ORDERED + FMTS, 2, deep)])
+    # odd-sized composites next to aligned variables, also in a sub-program class instantiated twice
+    odd = COMPOSITE + [FMTS[1], FMTS[2], FMTS[3], FMTS[5]]
+    decls = enumerate_decls(ctx, wd, [(FMTS, 2, allp), (small, 4, deep), (ordered, 2, ["derived"]), (odd, 2, deep)]
+                            if ctx.quick else
+                            [(FMTS, 3, allp), (small, 6, deep), (ORDERED + FMTS, 2, deep), (odd, 3, deep + ["base"])])
     n_enum = len(decls)
     fixed = random.Random("c08-large")
     decls += [random_decl(fixed) for _ in range(100 if ctx.quick else 600)]
@@ -543,7 +617,9 @@ def pred_base_map(case, reason=None):
 
 
 def fmt_size(fs):
-    return int(fs[:-1] or 1) * SIZES[fs[-1]]
+    """size of a format string, for the tally predicates only (struct knows all the formats used here)"""
+    import struct
+    return 8 if fs == "x" else struct.calcsize(fs)
 
 
 def pred_redeclared(case, reason=None):
